@@ -217,6 +217,8 @@ pub struct World {
     pub violations: Vec<Violation>,
     pub cur_max: usize,
     pub phase: usize,
+    /// event stamp at which each phase began
+    pub phase_started: Vec<u64>,
     pub faults_stopped: bool,
     pub cover: Cover,
     pub notes: Vec<String>,
@@ -472,6 +474,7 @@ impl World {
             violations: vec![],
             cur_max: prog.pool_max,
             phase: 0,
+            phase_started: vec![],
             faults_stopped: false,
             cover: Cover::default(),
             notes: vec![],
